@@ -7,7 +7,7 @@
 #
 # Object rules come from the main Makefile ($(B)/asan/sim/%.o, $(B)/asan/harness/%.o,
 # $(B)/asan/repo/{core,fitter,cinter}/%.o); nothing is defined twice here.
-HIST_WRAPS := fopen64 fopen remove fileno ftruncate64 ftruncate realloc ffrprt cholmod_l_start
+HIST_WRAPS := fopen64 fopen remove unlink rename access fileno ftruncate64 ftruncate realloc ffrprt cholmod_l_start
 
 HIST_OBJS := $(B)/asan/sim/harness.o $(B)/asan/sim/simdisk.o $(B)/asan/sim/fitscodec.o $(B)/asan/sim/tablegen.o \
   $(B)/asan/harness/psv_hist.o \
